@@ -74,12 +74,21 @@ add("pointer-error-conditional","C07","helpers.go","\tif err != nil {\n\t\tres.A
 add("uint64-falls-to-float","C13","values.go","\tcase reflect.Uint, reflect.Uint8, reflect.Uint16, reflect.Uint32, reflect.Uint64:\n\t\tvalue := valueHelp.asUint64(val)\n\t\tif !isExactUint64(multipleOf) {","\tcase reflect.Uint, reflect.Uint8, reflect.Uint16, reflect.Uint32:\n\t\tvalue := valueHelp.asUint64(val)\n\t\tif !isExactUint64(multipleOf) {","NARROW:native-dispatch:MultipleOfNativeType", quick=False)
 add("literal-pattern-fast-path","C15","values.go","func Pattern(path, in, data, pattern string) *errors.Validation {\n","func Pattern(path, in, data, pattern string) *errors.Validation {\n\tif !strings.ContainsAny(pattern, `\\.+*?()|[]^$`) {\n\t\tif !strings.Contains(data, pattern) {\n\t\t\treturn errors.FailedPattern(path, in, pattern, data)\n\t\t}\n\t\treturn nil\n\t}\n","PURE:Pattern:search")
 add("prune-stops-at-null-element","C19","post/prune.go","\t\tfor _, item := range obj {\n\t\t\tprune(item, result)","\t\tfor _, item := range obj {\n\t\t\tif item == nil {\n\t\t\t\treturn\n\t\t\t}\n\t\t\tprune(item, result)","POST:Prune:recursion", quick=False)
-add("defaults-stop-after-first-member","C18","post/defaulter.go","\t\t\t\t\tbreak LookForDefaultingScheme\n","\t\t\t\t\treturn\n","POST:ApplyDefaults:all-members", quick=False)
+add("defaults-stop-after-first-member","C18","post/defaulter.go","\t\t\t\t\tbreak LookForDefaultingScheme\n","\t\t\t\t\treturn\n","POST:ApplyDefaults:all-members", quick=False, old2="\tLookForDefaultingScheme:\n", new2="")
 add("dedupe-skips-typed-errors","C20","result.go","\t\t\tfor _, isReported := range r.Errors {\n\t\t\t\tif e.Error() == isReported.Error() {","\t\t\tfor _, isReported := range r.Errors {\n\t\t\t\tif _, typed := isReported.(interface{ Code() int32 }); typed {\n\t\t\t\t\tcontinue\n\t\t\t\t}\n\t\t\t\tif e.Error() == isReported.Error() {","RESULT-ALGEBRA:(*Result).AddErrors:dedupe-every-element", quick=False)
 add("additional-item-built-with-array-path","C17","slice_validator.go",'validator := newSchemaValidator(s.AdditionalItems.Schema, s.Root, fmt.Sprintf("%s.%d", s.Path, i), s.KnownFormats, s.Options)\n','validator := newSchemaValidator(s.AdditionalItems.Schema, s.Root, s.Path, s.KnownFormats, s.Options)\n\t\t\t\tvalidator.SetPath(fmt.Sprintf("%s.%d", s.Path, i))\n',"K-CONSISTENT:(*schemaSliceValidator).Validate:member validated against s.AdditionalItems.Schema:ctor-path", quick=False)
 add("empty-result-guard-removed","C01","pools.go","\tif s == emptyResult {\n\t\treturn\n\t}\n","","POOL-API:empty-guard", quick=False)
 add("additional-properties-schema-skipped","C01","object_validator.go","\t\tif o.AdditionalProperties == nil || o.AdditionalProperties.Schema == nil {\n","\t\tif o.AdditionalProperties == nil || o.AdditionalProperties.Schema == nil || len(o.PatternProperties) > 0 {\n","ROUTING:object:additionalProperties:schema", quick=False)
 add("keyword-dropped","C01","schema.go","\t\ts.Schema.UniqueItems,\n","\t\tfalse,\n","KEYWORDS:SchemaValidator:UniqueItems")
+# hunt round
+add("result-query-derefs-nil","C20","result.go","func (r *Result) Data() interface{} {\n\tif r == nil {\n\t\treturn nil\n\t}\n","func (r *Result) Data() interface{} {\n","RESULT-ALGEBRA:Data:nil-safe")
+add("empty-result-escapes","C04","schema.go","\t\treturn &Result{MatchCount: emptyResult.MatchCount}\n","\t\treturn emptyResult\n","EMPTY-IMMUTABLE:escape:(*SchemaValidator).Validate", quick=False)
+add("default-inserted-by-reference","C18","post/defaulter.go","key.Object()[key.Field()] = cloneValue(s.Default)","key.Object()[key.Field()] = s.Default","POST:ApplyDefaults:single-write", quick=False)
+add("null-member-skipped","C16","validator.go","\t\t\tif data == nil {\n\t\t\t\treturn nil\n\t\t\t}\n\n\t\t\tcontinue","\t\t\tcontinue","ENUM-CONVERT:basicCommonValidator:null-member", quick=False)
+add("enum-nil-guard","C14","values.go","\t\tif reflect.DeepEqual(data, enumValue) {\n\t\t\treturn nil // also when both are nil\n\t\t}\n\t\tif data != nil {\n","\t\tif data != nil {\n\t\t\tif reflect.DeepEqual(data, enumValue) {\n\t\t\t\treturn nil\n\t\t\t}\n","PURE:EnumCase:nil-member", quick=False)
+add("overlaps-in-map-order","C10","spec.go","\t\tfor _, path := range paths {\n\t\t\top := pi[path]\n","\t\tfor path, op := range pi {\n\t\t\t_ = paths\n","MAP-ORDER:(*SpecValidator).validateParameters", quick=False)
+add("dependency-errors-under-trigger","C17","schema_props.go","newSchemaValidator(dep.Schema, s.Root, s.Path, s.KnownFormats, s.Options)",'newSchemaValidator(dep.Schema, s.Root, s.Path+"."+key, s.KnownFormats, s.Options)',"SAME-DATUM-PATH:(*schemaPropsValidator).validateDependencies", quick=False)
+add("root-aliases-expanded-schema","C06","schema.go","\t\troot := *schema\n\t\trootSchema = &root\n","\t\trootSchema = schema\n","EXPAND-ROOT:newSchemaValidator:ExpandSchema:aliases-target", quick=False)
 json.dump(C, open('/verif/tables/controls.json','w'), indent=1)
 import os
 for c in C:
